@@ -197,6 +197,16 @@ impl Future for GateFut {
     }
 }
 
+/// Completes at once; either wakes the task's own waker (a spurious wake during the poll) or stashes a clone of it
+pub struct WakeNow { stash: Option<Arc<RunCtx>> }
+impl Future for WakeNow {
+    type Output = ();
+    fn poll(self: Pin<&mut Self>, cx: &mut Context<'_>) -> Poll<()> {
+        match &self.stash { Some(ctx) => ctx.stashed_wakers.lock().unwrap().push(cx.waker().clone()), None => cx.waker().wake_by_ref() }
+        Poll::Ready(())
+    }
+}
+
 /// Wakes its own waker during the poll and returns Pending once
 pub struct YieldOnce { done: bool }
 impl Future for YieldOnce {
@@ -294,6 +304,7 @@ pub struct RunCtx {
     pub attempts:   Mutex<Vec<(u8, usize, bool)>>,
     pub stash:      Mutex<std::collections::HashMap<OpId, Held>>,
     pub waiters:    Mutex<Vec<Thread>>,
+    pub stashed_wakers: Mutex<Vec<Waker>>,
     pub has_waiters: AtomicBool,
 }
 
@@ -440,7 +451,8 @@ pub fn closure_body(ctx: &Arc<RunCtx>, op: OpId, p: &mut Payload) -> u64 {
                 let owner = ctx.mortal_job_owner.lock().unwrap().take();
                 if let Some(owner) = owner { drop_owner(ctx, op, owner); }
             }
-            Step::Yield | Step::Gate(_) => { /* future-only steps are ignored in closures */ }
+            Step::FireStashed => { let ws: Vec<Waker> = ctx.stashed_wakers.lock().unwrap().clone(); for w in ws { w.wake_by_ref(); } }
+            Step::Yield | Step::Gate(_) | Step::WakeOnly | Step::StashWaker => { /* future-only steps are ignored in closures */ }
         }
     }
     span.finish();
@@ -458,6 +470,9 @@ pub fn future_body<'a>(ctx: Arc<RunCtx>, op: OpId, p: &'a mut Payload) -> BoxFut
                 Step::Gate(g) => GateFut { gate: Arc::clone(&ctx.gates[g]), ctx: Arc::clone(&ctx), op, registered: false }.await,
                 Step::Nest(c) => nested_async(Arc::clone(&ctx), c).await,
                 Step::Panic => { ctx.expected_panic_seen.fetch_add(1, ORD); panic!("vh-expected-panic op {}", op) }
+                Step::WakeOnly => WakeNow { stash: None }.await,
+                Step::StashWaker => WakeNow { stash: Some(Arc::clone(&ctx)) }.await,
+                Step::FireStashed => { let ws: Vec<Waker> = ctx.stashed_wakers.lock().unwrap().clone(); for w in ws { w.wake_by_ref(); } }
                 Step::Hold(_) | Step::DropMortal => {}
             }
         }
@@ -968,7 +983,7 @@ pub fn build(prog: Program, native: bool) -> Handles {
         resumers: (0..n).map(|_| Mutex::new(None)).collect(),
         resume_stamp: (0..n).map(|_| AtomicU64::new(0)).collect(),
         wake_classes: (0..9 * 6).map(|_| AtomicU32::new(0)).collect(),
-        native, expected_panic_seen: AtomicU32::new(0), attempts: Mutex::new(vec![]), stash: Mutex::new(Default::default()), waiters: Mutex::new(vec![]), has_waiters: AtomicBool::new(false),
+        native, expected_panic_seen: AtomicU32::new(0), attempts: Mutex::new(vec![]), stash: Mutex::new(Default::default()), waiters: Mutex::new(vec![]), stashed_wakers: Mutex::new(vec![]), has_waiters: AtomicBool::new(false),
         prog,
     });
     Handles { ctx, objects }
